@@ -41,6 +41,10 @@ type Plan struct {
 	// handed over as fresh copies that die with the call, and GCOps lists the
 	// operations (task, index) before which a collection runs, so that the
 	// allocator may hand the same block to the next argument.
+	// ArgOffset: string arguments are handed over as substrings of padded
+	// copies, so that their data starts at offset (task + operation index) mod 8
+	// of an aligned block (word-at-a-time scanners behave differently there).
+	ArgOffset  bool    `json:"arg_offset,omitempty"`
 	GCPre      bool    `json:"gc_pre,omitempty"`
 	EphArgs    bool    `json:"eph_args,omitempty"`
 	GCOps      [][]int `json:"gc_ops,omitempty"`
